@@ -7,7 +7,7 @@ SHARD = 6
 TAGS = {1, 2, 3, 4, 5, 6, 8, 10, 12, 13, 15}
 RULE = ("lifecycle scenarios: close() by client/server/both/nobody at a random instant of handshake or transfer (incl. "
         "window-limited senders), peer silent from a random datagram on (one or both directions), close packets lost/duplicated, idle "
-        "timeout and keep-alive settings, server process restart (genuine stateless resets, also to a client that is already closing), idle timeout renegotiated on 0-RTT resumption (remembered vs actual peer value: none, larger, smaller), late timers; non-trivial = at least one connection reached Drained")
+        "timeout and keep-alive settings, close() in the very iteration in which a chosen timer (loss detection, keep-alive, CID rotation, ack delay) expired, server process restart (genuine stateless resets, also to a client that is already closing), idle timeout renegotiated on 0-RTT resumption (remembered vs actual peer value: none, larger, smaller), late timers; non-trivial = at least one connection reached Drained")
 
 
 def gen(rng, n):
@@ -55,6 +55,8 @@ def gen(rng, n):
             d["CLOSER"] = rng.choice([0, 0, 3])
             d["DELAY_MIN"] = d["DELAY_MAX"] = rng.choice([10000, 30000])
             d["STREAM_BYTES"] = rng.choice([20000, 100000, 300000])
+            d["WRITE_CHUNK"] = 100000
+            d["READ_MAX"] = 100000
             d["ECHO_BYTES"] = rng.choice([0, 100000])
             d["NBIDI"] = 1
             if rng.chance(1, 2):
@@ -68,6 +70,8 @@ def gen(rng, n):
             d["DELAY_MIN"] = d["DELAY_MAX"] = rng.choice([10000, 30000])
             t = 2 * d["DELAY_MIN"] * rng.range(4, 10)
             d["STREAM_BYTES"] = rng.choice([100000, 300000])
+            d["WRITE_CHUNK"] = 100000
+            d["READ_MAX"] = 100000
             d["NBIDI"] = 1
             d["ECHO_BYTES"] = rng.choice([0, 100000])
             d["CLOSER"] = rng.choice([0, 0, 3])
@@ -78,6 +82,21 @@ def gen(rng, n):
             d["IDLE_MS"] = rng.choice([1000, 3000])
             d["MAX_TIME"] = 15_000_000
             d.pop("RETRY", None)
+        if rng.chance(1, 8) and not d.get("ZERO_RTT") and "FORGET_AT" not in d:
+            # adversarial scheduling: the application closes in the very driver iteration in which a
+            # given timer of its connection expired (after handle_timeout, before the endpoint's answers)
+            d["CLOSE_ON_TIMER"] = rng.choice([1, 6, 8, 8, 9])
+            d["CLOSE_ON_TIMER_N"] = rng.range(1, 3)
+            d["CLOSER"] = rng.choice([0, 1, 2])
+            d["CLOSE_AT"] = 6_000_000
+            d["MAX_TIME"] = 12_000_000
+            d["IDLE_MS"] = rng.choice([3000, 10000])
+            if d["CLOSE_ON_TIMER"] == 8:
+                d["CID_LIFETIME_MS"] = rng.choice([50, 200, 1000])
+                if d.get("CID_LEN") == 0:
+                    d["CID_LEN"] = 8
+            elif d["CLOSE_ON_TIMER"] == 6:
+                d["KEEPALIVE_MS"] = rng.choice([100, 500])
         if d.get("STREAM_RWND") == 1:
             d["STREAM_BYTES"] = min(d["STREAM_BYTES"], 700)     # one byte per round trip
         if rng.chance(1, 2) and m != 1:
